@@ -62,7 +62,13 @@ def gen_case(rng, ndim=None, inner=None, outer=None, steady=None, const_mat=None
     steady = rng.random() < 0.25 if steady is None else steady
     const_mat = rng.random() < 0.5 if const_mat is None else const_mat
     nsteps = nsteps or rng.randint(1, 3)
-    times = np.cumsum([0.0] + [rng.choice([0.125, 0.5, 1.0, 8.0, 64.0]) for _ in range(nsteps)])
+    steps_ = [rng.choice([0.125, 0.5, 1.0, 8.0, 64.0]) for _ in range(nsteps)]
+    if nsteps >= 3 and rng.random() < 0.4:
+        # a step size that comes back after a different one (ramp / hold / ramp): anything kept from one step to the next
+        # must be keyed on the step size it was built for
+        steps_[1] = rng.choice([x for x in [0.125, 0.5, 1.0, 8.0, 64.0] if x != steps_[0]])
+        steps_[2] = steps_[0]
+    times = np.cumsum([0.0] + steps_)
     decimal_grid = rng.random() < 0.25
     if decimal_grid:
         # the end of a decimal time grid: dt/substep is not exactly representable, so a sub-step loop that marches in
